@@ -167,6 +167,9 @@ func (s *c05Signer) tick(what string) error {
 		*s.trace = append(*s.trace, "signer:"+what)
 	}
 	if k == s.failAt {
+		if s.trace != nil {
+			*s.trace = append(*s.trace, "signer:"+what+":fail")
+		}
 		return errC05Injected
 	}
 	return nil
@@ -326,7 +329,10 @@ func (s *c05Store) UpdateOrder(n order.Nonce, m ...order.Modifier) error {
 func (s *c05Store) UpdateOrders(n []order.Nonce, m [][]order.Modifier) error {
 	return s.db.UpdateOrders(n, m)
 }
-func (s *c05Store) GetOrder(n order.Nonce) (order.Order, error) { return s.db.GetOrder(n) }
+func (s *c05Store) GetOrder(n order.Nonce) (order.Order, error) {
+	s.ev("store:GetOrder")
+	return s.db.GetOrder(n)
+}
 func (s *c05Store) GetOrders() ([]order.Order, error)          { return s.db.GetOrders() }
 func (s *c05Store) DeleteOrder(n order.Nonce) error             { return s.db.DeleteOrder(n) }
 
@@ -385,9 +391,16 @@ func (a *c05AcctStore) Account(k *btcec.PublicKey) (*account.Account, error) {
 	n := a.p.acctCalls
 	a.p.acctCalls++
 	if n == a.p.acctFailAt {
+		a.p.ev("acct:fail")
 		return nil, errC05Injected
 	}
-	return a.p.db.Account(k)
+	acct, err := a.p.db.Account(k)
+	if err != nil {
+		a.p.ev("acct:fail")
+	} else {
+		a.p.ev("acct:ok")
+	}
+	return acct, err
 }
 
 // c05NonLinearFee is a fee schedule the verifier accepts (interface) but the
@@ -983,36 +996,71 @@ func (w *c05World) buildBatch(p *c05Prop) (*order.Batch, string, bool, error) {
 // ---------------------------------------------------------------------------
 // executing one history
 
-func c05Class(err error) string {
+// Outcomes are classified by WHICH CALL FAILED (the call traces of the signer /
+// store / account-store proxies), never by error texts.
+
+// c05ClassValidate: the manager either accepted the proposal or not.
+func c05ClassValidate(err error) string {
 	if err == nil {
 		return "ok"
 	}
-	s := err.Error()
-	switch {
-	case strings.HasPrefix(s, "error validating batch:"):
-		return "err:verify"
-	case strings.HasPrefix(s, "error validating matched orders:"):
-		return "err:order"
-	case strings.HasPrefix(s, "invalid match with"):
-		return "err:match"
-	case strings.HasPrefix(s, "account not found:"):
-		return "err:acct"
-	case s == "account input not found":
-		return "err:input"
-	case strings.HasPrefix(s, "error MuSig2 signing input") &&
-		strings.Contains(s, "server didn't include nonces"):
-		return "err:nonce"
-	case strings.HasPrefix(s, "unable to store batch:"):
-		return "err:store"
-	case strings.HasPrefix(s, "unexpected batch ID"):
-		return "err:id"
-	case strings.HasPrefix(s, "unable to mark batch as complete:"):
-		return "err:store"
-	case strings.HasPrefix(s, "could not get account output:"):
-		return "err:output"
-	default:
-		return "err:signer"
+	return "err"
+}
+
+// c05ClassSign names the stage in which a BatchSign failed:
+//
+//	err:signer  a signer-client call failed
+//	err:acct    the account lookup of the signing stage failed
+//	err:pre     no collaborator call failed: a precondition of signing did not
+//	            hold (account input not in the batch tx, server nonce missing)
+//	err:store   the staging stage failed (order / account lookup of the storer,
+//	            or the database call)
+//
+// The staging stage is the part of the trace from a `store:GetOrder` (the
+// storer's first action) to the `store:StorePendingBatch` call.
+func c05ClassSign(err error, trace []string) string {
+	if err == nil {
+		return "ok"
 	}
+	cls, storing := "err:pre", false
+	for _, e := range trace {
+		switch {
+		case e == "store:GetOrder":
+			storing = true
+		case strings.HasPrefix(e, "store:StorePendingBatch"):
+			storing = false
+			if strings.Contains(e, ":fail") {
+				cls = "err:store"
+			}
+		case e == "acct:fail":
+			if storing {
+				cls = "err:store"
+			} else {
+				cls = "err:acct"
+			}
+		case strings.HasPrefix(e, "signer:") && strings.HasSuffix(e, ":fail"):
+			cls = "err:signer"
+		}
+	}
+	if cls == "err:pre" && storing {
+		// the storer gave up without a failing collaborator call
+		cls = "err:store"
+	}
+	return cls
+}
+
+// c05ClassFinalize: a failing BatchFinalize that reached MarkBatchComplete
+// failed in the store, otherwise it refused the batch ID.
+func c05ClassFinalize(err error, trace []string) string {
+	if err == nil {
+		return "ok"
+	}
+	for _, e := range trace {
+		if strings.HasPrefix(e, "store:MarkBatchComplete") {
+			return "err:store"
+		}
+	}
+	return "err:id"
 }
 
 func (w *c05World) acctByRaw(raw [33]byte) *c05Acct {
@@ -1099,12 +1147,20 @@ func (w *c05World) exec(c *c05Case) {
 			}
 			var verr error
 			pan := c05Recover(func() { verr = w.mgr.OrderMatchValidate(batch, c05BestHeight) })
-			res := c05Class(verr)
+			res := c05ClassValidate(verr)
 			if pan != "" {
 				res = "panic"
 			}
 			r.Count("validate/" + res)
 			r.Count("variant/" + strings.Split(p.variant, ":")[0])
+			if p.node == 3 {
+				for _, k := range p.accts {
+					if k >= 2 {
+						r.Count("validate/node-filter-applies")
+						break
+					}
+				}
+			}
 			if res == "ok" {
 				if w.lastOK != nil && w.lastOK.ID == batch.ID {
 					r.Count("validate/reproposal-same-id")
@@ -1130,7 +1186,7 @@ func (w *c05World) exec(c *c05Case) {
 			var ferr error
 			pan := c05Recover(func() { ferr = w.mgr.BatchFinalize(bid) })
 			w.store.markFault = false
-			res := c05Class(ferr)
+			res := c05ClassFinalize(ferr, w.trace)
 			if pan != "" {
 				res = "panic"
 			}
@@ -1374,7 +1430,7 @@ func (w *c05World) execSign(c *c05Case, kv map[string]string,
 	w.store.acctFailAt = -1
 	w.signer.failAt = -1
 
-	res := c05Class(serr)
+	res := c05ClassSign(serr, trace)
 	if pan != "" {
 		res = "panic"
 	}
